@@ -269,8 +269,8 @@ impl Check for PolyRoots {
                 } else {
                     // residuals
                     let worst_res = found.iter().map(|z| horner(&coeffs, *z).norm()).fold(0.0, f64::max);
-                    o.metric("residual/(4 tol + noise)", worst_res / (4.0 * tol + noise));
-                    if !(worst_res <= 4.0 * tol + noise) {
+                    o.metric("residual/(tol + noise)", worst_res / (tol + noise));
+                    if !(worst_res <= tol + noise) {
                         o.viol("polynomial::roots", "each-value-is-a-root-by-residual", format!("{}: worst |p(z)| = {:e} among {:?}", ctx(), worst_res, found));
                     }
                     // one-to-one match with the true roots
@@ -279,7 +279,7 @@ impl Check for PolyRoots {
                             let z = roots[i];
                             let dp: C = lead * (0..p.n).filter(|j| *j != i).map(|j| z - roots[j]).product::<C>();
                             let cond = coeffs.iter().enumerate().map(|(k, c)| c.norm() * z.norm().powi(k as i32)).sum::<f64>();
-                            (8.0 * tol + 64.0 * EPS * cond) / dp.norm().max(1e-300) + 16.0 * EPS * z.norm()
+                            (2.0 * tol + 64.0 * EPS * cond) / dp.norm().max(1e-300) + 16.0 * EPS * z.norm()
                         })
                         .collect();
                     let b = bottleneck(&found, &roots, &allowed);
@@ -490,7 +490,7 @@ impl Check for OrthoZeros {
 
 pub fn main(mut r: Report) -> ! {
     r.assumptions = vec![
-        "true roots are the ones the polynomial is expanded from in the harness; allowed distance (8 tol + 64 eps cond)/|p'(z)| + 16 eps |z|".into(),
+        "true roots are the ones the polynomial is expanded from in the harness; allowed distance (2 tol + 64 eps cond)/|p'(z)| + 16 eps |z|".into(),
         "tolerances are never below the evaluation noise 64 eps sum|c_k| 3^k (the stopping rule is an absolute residual; below the noise Err is legitimate and no claim is made)".into(),
     ];
     r.run(&PolyRoots);
